@@ -30,6 +30,17 @@ from .passes import (
 ElaboratableType = TypeVar("ElaboratableType", bound=Elaboratables)
 
 
+class PostFlattenConnTypes(ConnTypes):
+    """The post-flattening repeat of `ConnTypes`.
+    A class of its own, so that it has its own done/pending cache:
+    sharing the first occurrence's would find every module already "done", and check nothing."""
+
+
+class PostFlattenOrphanage(Orphanage):
+    """The post-flattening repeat of `Orphanage`, with its own cache for the same reason."""
+
+
+
 @datatype
 class Elaborator:
     """
@@ -57,8 +68,8 @@ class Elaborator:
                 #
                 # A couple repeats
                 #
-                ConnTypes,
-                Orphanage,
+                PostFlattenConnTypes,
+                PostFlattenOrphanage,
                 #
                 # And final module-marking
                 #
